@@ -3,7 +3,7 @@ import contextlib
 import io
 from fractions import Fraction
 
-from . import core, filt
+from . import c07_shared, core, filt
 from .c04 import finish_tie
 
 EDGES = ["a", "b", "c", "meta", "x_y", "flow", "loop", "1", "b-", ""]
@@ -181,6 +181,10 @@ def run(ctx):
                 n_dis += 1
                 if n_dis <= 3:
                     filt.report_disagreement(ctx, "ranking / costs differ from the model", db, cmds, drv, strategy=strat)
+        # (e), (f), witness: the knowledge set shared with the filter and mutated in place (round 10, c07_shared.py)
+        n_before = len(ctx.violations)
+        c07_shared.run_streams(ctx, drv, gen_taxon, gen_knowledge)
+        n_dis += len(ctx.violations) - n_before
         ctx.cov["disagreements_checked"] = n_dis
         ctx.cov["float_envelope"] = {"max_depth_seen": maxdepth_seen, "max_total_seen": str(maxtotal_seen),
                                      "assumed": "depth <= 40 and totals < 2^12: every value is a dyadic rational exactly representable as a double"}
@@ -191,15 +195,28 @@ def run(ctx):
         "strategies on a fresh assessor; (b) random histories of 2-12 set_imparted_knowledge / taxon_cost / assess steps on ONE assessor "
         "(40% with a second interleaved assessor), compared step by step with the pure recomputation (spec) and with the memoised model; "
         "(c) 1-3 run_pipeline calls on one Recommendations; (d) whole pipelines incl. imported taxa: ranking compared exactly "
-        "(Fraction(float) vs Rat). Non-trivial: some non-zero cost (a); ≥1 knowledge change and ≥2 assessments (b)."
+        "(Fraction(float) vs Rat). Non-trivial: some non-zero cost (a); ≥1 knowledge change and ≥2 assessments (b). "
+        "(e) random histories on a bare assessor over a heap of 1-3 set objects: mutate one IN PLACE (add / discard), set_imparted_knowledge(obj), "
+        "another assessor constructed or set (class-level cache cleared), taxon_cost, assess — 40% generated as run_pipeline rounds; "
+        "(f) a real Recommendations driven by run_pipeline / direct update_filter / assess / assess.taxon_cost, the in-place growth taken "
+        "from the Lean filter model; every output compared with the Lean machine SState (cost.shared); inside the disciplined prefix "
+        "a departure from the pure cost is a violation, a stale cost outside it is counted in documented_gap_reproduced (§11.6); "
+        "the witness of C07_shared_direct_update_stale is replayed on both."
     )
     ctx.cov["trusted_base"] = core.BASE_TRUST + [
         "hand-written model of assess_costs.py (Model/Costs.lean) with exact rationals; float arithmetic is exact inside the stated envelope only",
         "Ctx.WF / well-formed databases for stream (d)",
+        "hand-written heap model of the aliasing between the filter's knowledge set and the assessor (Model/CostsShared.lean): one lru_cache per class, "
+        "keyed by (self, taxon), cleared by set_imparted_knowledge / __init__ of any instance; the state before the first set_imparted_knowledge "
+        "(attribute missing) is outside the machine",
     ]
     ctx.cov["proved"] = ["C07_taxon_zero", "C07_taxon", "C07_zeno_sum", "C07_zeno_closed", "C07_linear", "C07_program", "C07_ranking",
-                         "C07_history", "C07_knowledge_current", "C07_knowledge_as_set"]
-    ctx.cov["exercised_only"] = ["which taxa a program's record holds after add_imported_taxa (own + non-meta taxa of its imports): compared with the model on every pipeline, not yet a theorem",
+                         "C07_history", "C07_knowledge_current", "C07_knowledge_as_set", "C07_recommender", "C07_program_taxa",
+                         "C07_shared_mutation", "C07_shared_stale_characterised", "C07_shared_snapshot_cost", "C07_shared_snapshots",
+                         "C07_shared_disciplined_sound", "C07_shared_run_pipeline_sound", "C07_shared_direct_update_stale"]
+    ctx.cov["exercised_only"] = ["taxon_cost before the first set_imparted_knowledge (AttributeError: the attribute does not exist yet): checked once per run, outside the machines",
+                                 "a direct update_filter followed by assess without run_pipeline returns stale costs (documented gap, §11.6): modelled exactly "
+                                 "(C07_shared_direct_update_stale), reproduced on the real code, not a violation",
                                  "IEEE rounding outside the envelope"]
     finish_tie(ctx)
     return core.finish(ctx)
@@ -211,6 +228,8 @@ def replay(ctx, path):
     obj = json.load(open(path, encoding="utf-8"))
     if obj.get("kind") == "filter-disagreement":
         return filt.replay(ctx, path)
+    if obj.get("kind") in ("shared-bare", "shared-recommender"):
+        return c07_shared.replay(obj)
     core.import_repo()
     from paroxython.assess_costs import LearningCostAssessor
 
